@@ -651,6 +651,14 @@ for a in arrays:
                     VIOLATED, DETAIL = True, f'load_table({kind}) of a {a.shape} array: shape {np.asarray(t).shape}, values {np.asarray(t).ravel()[:4]}'; break
         except Exception as e:
             VIOLATED, DETAIL = True, f'{kind} file of a {a.shape} array: {type(e).__name__}: {e}'; break
+if not VIOLATED:
+    # a LARGE text image (more than a megabyte) with values that need all 17 significant digits: read back bit-identically
+    big = np.random.default_rng(11).normal(size=(256, 256)) * 1e3
+    for tag, sep in (('space', ' '), ('comma', ',')):
+        f = d / f'big_{tag}.txt'; np.savetxt(f, big, delimiter=sep)
+        got = np.asarray(load_image(f), dtype=float)
+        if got.shape != big.shape or not np.array_equal(got, big):
+            VIOLATED, DETAIL = True, f'load_image of a 256x256 full-precision text image ({tag}-separated, {f.stat().st_size} bytes): {int((got != big).sum()) if got.shape == big.shape else got.shape} values differ from the file'; break
 """, "expect": "load_image, load_image_v2 and load_table read npy, FITS and text with the five delimiters back unchanged",
-    "bound": "9 arrays (2x3, 1x5, 4x1, 1x1, 3x4, 12x24, 20x40, 6x60, 40x2) x {npy, fits, txt and data files with tab / space / comma / bar / semicolon} x 3 loaders", "function": "pyxel/inputs/loader.py"}
+    "bound": "9 arrays (2x3, 1x5, 4x1, 1x1, 3x4, 12x24, 20x40, 6x60, 40x2) x {npy, fits, txt and data files with tab / space / comma / bar / semicolon} x 3 loaders; one 256x256 full-precision text image (1.6 MB) x 2 delimiters", "function": "pyxel/inputs/loader.py"}
 AUDITS = {"formats.roundtrip": FORMATS_AUDIT}
